@@ -27,6 +27,15 @@ def run(ctx):
         ctx.violation("obl-not-table", "a non-table section panics: " + d["data"]["not_table_text"], {"theorem_or_correspondence": "Gen.Obl_C11_not_table"}, found_input=False)
     header = "From ZL Require Import Base.Bytes Base.Corr Framework.Core Framework.Config Framework.Script Framework.ConfigScript.\nOpen Scope Z_scope.\n"
     f = common.corr_stream(ctx, "cfg", d["cases"]["cfg"], header, "check_cfg", "Config.crun (routing of TOML sections to configurable lints of the three kinds)")
+    cheader = ("From ZL Require Import Base.Bytes Base.Corr Kernels.Calendar.\nFrom Coq Require Import ZArith Bool List.\nImport ListNotations.\nOpen Scope Z_scope.\n"
+               "Definition chk_crlcfg (c : bool * Z * Z * bool * Z) : bool := match c with (present, this, next, subscriber, st) =>\n"
+               "  st =? (if negb present then 1 else if next_update_too_late subscriber this next then 6 else 3) end.\n")
+    fcc = common.corr_stream(ctx, "crlcfg", d["cases"].get("crlcfg", []), cheader, "chk_crlcfg",
+                             "Calendar.next_update_too_late vs e_crl_next_update_invalid under the default, SubscriberCRL = true and SubscriberCRL = false (the rule the option selects: 10 days / 12 calendar months)")
+    common.require_outcomes(ctx, "crlcfg", d["cases"].get("crlcfg", []), [{"0", "1", "2"}, {"3", "6"}])
+    for c in fcc[:3]:
+        ctx.violation("spec:crlcfg", "e_crl_next_update_invalid under this configuration does not decide the rule its option selects (Calendar.next_update_too_late, characterised by c05_crl_subscriber_limit / c05_crl_ca_limit) on this revocation list",
+                      {"input": c.get("desc"), "coq_case": c.get("coq"), "theorem_or_correspondence": "ZL.Props.C05.c05_crl_ca_limit / c05_crl_subscriber_limit"})
     if not mon:
         common.report_disagreements(ctx, "cfg", f, "Framework.Config.crun", [])
     st = d.get("stats", {})
